@@ -74,7 +74,7 @@ def make_probes(world, r=None):
 def generate(r, tier):
     engine = r.choice(["sync", "sync", "loop", "loop", "coro"])
     is_async = engine != "sync"
-    world = gen.gen_world(r, is_async, forms=True, with_class=0.7, async_methods=is_async and r.random() < 0.7)
+    world = gen.gen_world(r, is_async, forms=True, with_class=0.7, async_methods=is_async and r.random() < 0.7, subclass=0.35)
     units = gen.units_of(world)
     profile = {"p_falsy": 0.6, "pause_density": 0.7, "p_nested": 0.3, "p_self": 0.5, "max_depth": 2, "max_fanout": 2, "p_fault": 0.0}
     scn = {"property": ID, "engine": engine, "world": world, "probes": make_probes(world)}
@@ -233,6 +233,38 @@ def _chain_has(top, e):
     return False
 
 
+def _strip_repr(td):
+    t = copy.deepcopy(td)
+
+    def go(x):
+        for sc in (x.get("sites") or {}).values():
+            f = sc.get("fault")
+            if f is not None and f["kind"].startswith("repr:"):
+                del sc["fault"]
+            for n in sc.get("nested") or ():
+                if isinstance(n, dict) and "id" in n:
+                    go(n)
+        for n in (x.get("body") or {}).get("nested") or ():
+            if isinstance(n, dict) and "id" in n:
+                go(n)
+
+    go(t)
+    return t
+
+
+def _baseline_without_repr_faults(scn):
+    """Verdicts of the faulted tickets when the failing __repr__ faults are removed (same engine, fresh run)."""
+    if "_baseline" in scn:
+        return scn["_baseline"]
+    try:
+        run, _ = _run_tickets(scn["engine"], scn["world"], [_strip_repr(t) for t in scn.get("faulted") or []], [], scn.get("plan"))
+        res = common.verdict_map(run)
+    except core.Abort:
+        res = None
+    scn["_baseline"] = res
+    return res
+
+
 def judge(run, pristine, scn, plan):
     violations = []
     engine = scn["engine"]
@@ -283,9 +315,12 @@ def judge(run, pristine, scn, plan):
             continue  # the call never completed (cap) - judged elsewhere
         top = out.get("exc_obj")
         ok = top is not None and _chain_has(top, e)
-        if not ok and kind.startswith("repr:") and top is not None:
-            v = out["verdict"]
-            ok = v[0] == "exc" and v[2] is not None  # absorbed by reprlib; a contract's violation is still reported
+        if not ok and kind.startswith("repr:"):
+            # absorbed by the repr machinery: then the call must end exactly as it ends without the failing __repr__
+            # (the violation is still reported; or, where an alternative precondition group holds, the call succeeds)
+            base = _baseline_without_repr_faults(scn)
+            key = tx.top.xid + "|" + tx.xid if tx.top is not tx else tx.xid
+            ok = base is not None and base.get(key) == out["verdict"]
         if not ok:
             violations.append(
                 {
@@ -450,6 +485,7 @@ def execute(scn):
         for s in singles:
             res = execute_single(s, pristine)
             digests.append(res.get("digest"))
+            s.pop("_baseline", None)
             for v in res["violations"]:
                 v = dict(v)
                 v["scenario"] = s
@@ -480,6 +516,7 @@ def execute(scn):
             "engine": scn["engine"],
         }
     res = execute_single(scn)
+    scn.pop("_baseline", None)
     res["nontrivial"] = {common.h64(f) for f in res.get("fired") or []}
     res["evaluations"] = 1
     return res
